@@ -19,8 +19,8 @@ MANIFEST = dict(
               'entity lump, PHYSCOLLIDE, DeferredWrites; byte-exact) + static-prop format selection tabulated by EXECUTING the heads of '
               '_lmp_read_props / _lmp_write_props over the ast for every (BSP version, header number, record size, format named), compared '
               'exhaustively with the implementation + field-by-field save/re-read oracle incl. histories (file with empty tables read first; '
-              'nothing read; format named)',
-    text='Theorems in Props/C11.v (63): for every struct format of the modelled language and every fitting record unpack(pack v) = v; '
+              'nothing read; format named; save rejected, value repaired in place, saved again) + the commit order of save() as a generated event list',
+    text='Theorems in Props/C11.v (65): for every struct format of the modelled language and every fitting record unpack(pack v) = v; '
          'pack succeeds only if every integer is inside its field (out-of-range raises); Ns fields pad and silently truncate, '
          'so a guarded site never truncates; run-length decoding inverts encoding for every byte list, alone and at its offset '
          'inside the lump; an integer expression that passes the decision procedure rowsize_ok equals ceil(n/8) for EVERY cluster count and '
@@ -53,7 +53,10 @@ MANIFEST = dict(
          'was EMPTY when read (the guess made from the header number alone), the lump was never read (the writer\'s fallback and the header '
          'number it sets), the caller named the format (kept by the reader of an empty lump, written under its own header number, found again '
          'when no other format shares header number and record size) - static_prop_format_property, generic over the generated tables; a '
-         'first-match guess and a header number left as the opened file had it are refuted. '
+         'first-match guess and a header number left as the opened file had it are refuted; the rebuild loop of save(), read as a list of events '
+         '(view leaves the cache / a point that can raise / bytes stored), keeps every view in the cache until nothing can raise for it any more, '
+         'so a save() rejected by a value that does not fit leaves the object as it was and can be repeated (rejected_save_keeps_the_view; '
+         'popping the view first is refuted). '
          'Generic over the tables generated from today\'s source: every reader/writer site '
          'pair of every lump uses one layout in each of the five layout tables; for 23 record variants (planes, vertexes, primitives, faces, '
          'brush sides, brushes, leaf water data, leafs, nodes, texdata, texinfo, brush models, cubemaps, overlay fades/system levels, the three '
@@ -62,7 +65,7 @@ MANIFEST = dict(
          'reader\'s size for every face count; each detail-prop class is written by its own branch; all 28 index tables of the writers have a '
          'key that determines the record; all 8 loops over local index tables reach every entry; the rebuild order is topological for the 28 '
          'append edges. The premises are kernel-checked for '
-         'today\'s source on every run (291 obligations). Models are compared byte-exactly with CPython struct, runlength_encode/decode, '
+         'today\'s source on every run (295 obligations). Models are compared byte-exactly with CPython struct, runlength_encode/decode, '
          'binformat.find_or_* (with key functions), binformat.DeferredWrites, _lmp_write/read_textures, write_ent_data/_lmp_read_ents, the '
          'PHYSCOLLIDE lump of _lmp_write/read_bmodels; generated lump contents (incl. '
          'near-duplicate objects, and objects reachable ONLY through references of other objects - grafted sub-trees of nodes, leafs, faces, '
@@ -72,7 +75,8 @@ MANIFEST = dict(
          'which static-prop format it holds (only V11-in-a-v20-file / Mesa-elsewhere, which no file can tell apart, are named to the reader); '
          'histories: a file whose static-prop / detail-prop / overlay / cubemap tables are empty is read view by view, then a world is '
          'assigned to the same object (every layout x every header number), the same with nothing read, the same with the format named '
-         'before the empty lump is read; values that do not fit must raise; '
+         'before the empty lump is read; values that do not fit must raise - and after the rejection the value is repaired in place and the same '
+         'object saved again: the second save must write the whole world (7 layouts x 7 views); '
          'every call into the implementation runs under a time limit (a hang is reported as a failing input).',
     note='Partial: instance-name prefixes of outputs and mapversion are searched, not modelled; the static-prop format tables are produced '
          'by a small interpreter (translate/c11_propver.py: if / for over the enum / break / try-except / assignments / helper methods; '
@@ -1528,7 +1532,8 @@ def run(ck: Ck) -> None:
                'reachable only through references (depth >= 2), worlds with resave are changed in place after the re-read and saved again; '
                'histories: (layout in 7) x (static-prop header number in 4..13) x {empty tables read first, nothing read, format named first}, the '
                'world assigned afterwards has at least one static prop and one detail prop, distinct by layout/header/seed; static-prop '
-               'format tables: the complete domain (12 BSP versions x 16 header numbers x 12 record sizes x 14 formats named), every row compared')
+               'format tables: the complete domain (12 BSP versions x 16 header numbers x 12 record sizes x 14 formats named), every row compared; '
+               'retry histories: (layout in 7) x (view in 7 whose first object gets one value outside its field), non-trivial = the first save raised')
     ck.trusted.append('hand-written models Bin/Struct.v, Bin/RLE.v, Bin/FindInsert.v, Fmt/BspTexStrings.v, Fmt/BspEntLump.v (+ Fmt/VmfText.hs) '
                       '(tied by byte-exact correspondence on every run)')
     ck.trusted.append('translate/c11_records.py: name-based data-flow analysis that labels every struct slot with the attributes it carries; '
